@@ -106,7 +106,15 @@ class DagWalker(Walker):
         if formula in self.memoization:
             return self.memoization[formula]
 
-        res = self.iter_walk(formula, **kwargs)
+        try:
+            res = self.iter_walk(formula, **kwargs)
+        except BaseException:
+            # A failed walk must leave no trace: drop the pending work
+            # items and the partial results of a one-shot memoization
+            self.stack = []
+            if self.invalidate_memoization:
+                self.memoization.clear()
+            raise
 
         if self.invalidate_memoization:
             self.memoization.clear()
